@@ -212,7 +212,7 @@ STREAMS = [
            budget={"quick": 400, "thorough": 12000}, timeout=10.0, rule=RULE,
            hang_is_violation=True, steps={"quick": 12, "thorough": 12}),
     Stream("fuzz", "fuzz", lambda tier: ("fuzz/C15_target.py", ["-max_len=128"]),
-           history_check(Session), budget={"quick": 3000, "thorough": 150000}, timeout=10.0,
+           history_check(Session), budget={"quick": 12000, "thorough": 200000}, timeout=10.0,
            rule=("atheris/libFuzzer coverage-guided campaign per worker (plasTeX instrumented): bytes -> "
                  "(template, config, <=12 requests) via FuzzedDataProvider, same session oracle inside the "
                  "target; failures bucketed, campaign continues; non-trivial as in 'history'."),
